@@ -1,6 +1,6 @@
 (* Extraction of the executable model and acceptors to OCaml (ExtrOcamlBasic only). *)
 From Coq Require Import ExtrOcamlBasic.
-From W Require Import model.Base model.Fnv model.Utf8 model.Sanitize model.WalKey model.Engine model.EngineCfg spec.Queue spec.Crash model.Frame spec.FrameSpec model.Map model.Bincode model.Meta model.Adapter model.RaftStore spec.RaftSpec model.Hdr spec.Damage model.Durable spec.PowerLoss.
+From W Require Import model.Base model.Fnv model.Utf8 model.Sanitize model.WalKey model.Engine model.EngineCfg spec.Queue spec.Crash model.Frame spec.FrameSpec model.Map model.Bincode model.Meta model.Adapter model.RaftStore spec.RaftSpec model.Hdr spec.Damage model.Durable spec.PowerLoss model.Clean spec.CleanSpec.
 Extraction "model.ml"
   N.add N.mul N.div N.modulo N.eqb N.ltb N.leb N.sub N.of_nat N.to_nat
   checksum64 utf8_encode utf8_decode
@@ -17,4 +17,5 @@ Extraction "model.ml"
   wal_run wal_disciplined wal_empty trace final c21_ok c21_known reopens ghost_of sm_apply sm_init rec_app apply_spec
   decode_hdr class_of encode_hdr enc_entry entry_read scan_file topic_stream utf8_ok c11_ok
   drun dstep d_init proto_ok mrun_stop dm_init pick_outcome unsynced admissible_outcomes dlook owner flen ino_ops version_of reflected_ends
-  c10_strict_ok c10_appends_ok.
+  c10_strict_ok c10_appends_ok
+  k_init k_step k_quiet k_accept k_c17_ok.
